@@ -2,6 +2,7 @@
 import json
 
 MODULE = "Freshness"
+META = {"spec": ["Freshness"]}
 ASSUMPTIONS = [
     "equal exchange timestamps: keep or replace are both allowed (the code replaces balances/orders and keeps market data)",
     "L1 events carry last_update_time == time_exchange (as every connector does); exchange times are after the Unix epoch and carry microseconds",
